@@ -68,6 +68,27 @@ RECIPES = {
 }
 
 
+# regimes in which a REFRACTORY neuron reaches its threshold by itself:
+#  * quadratic / exponential neurons whose reset voltage lies above the critical / rheobase voltage: the
+#    membrane climbs during the refractory period when it is not locked;
+#  * adaptive thresholds with negative spike increments: the adapted threshold sinks below the reset voltage;
+#  * GLIF2 with a reset map that does not bring the voltage below the threshold.
+RECIPES["QIF"].append(dict(rest_v=-60.0, crit_v=-50.0, affinity=1.0, reset_v=-45.0, thresh_v=-30.0, time_constant=10.0,
+                           resistance=1.0))
+RECIPES["Izhikevich"].append(dict(rest_v=-60.0, crit_v=-50.0, affinity=1.0, reset_v=-45.0, thresh_v=-30.0,
+                                  tc_membrane=10.0, tc_adaptation=50.0, voltage_coupling=0.02, spike_increment=0.5,
+                                  resistance=1.0))
+RECIPES["EIF"].append(dict(rest_v=-60.0, rheobase_v=-50.0, sharpness=2.0, reset_v=-43.0, thresh_v=-30.0,
+                           time_constant=5.0, resistance=1.0))
+RECIPES["AdEx"].append(dict(rest_v=-60.0, rheobase_v=-50.0, sharpness=2.0, reset_v=-43.0, thresh_v=-30.0,
+                            tc_membrane=5.0, tc_adaptation=50.0, voltage_coupling=0.02, spike_increment=0.5,
+                            resistance=1.0))
+RECIPES["ALIF"].append(dict(rest_v=-60.0, reset_v=-52.0, thresh_eq_v=-50.0, tc_membrane=20.0, tc_adaptation=(40.0, 15.0),
+                            spike_increment=(-2.0, -1.5), resistance=1.0))
+RECIPES["GLIF2"].append(dict(rest_v=-60.0, reset_v_add=-1.0, reset_v_mul=1.0, thresh_eq_v=-50.0, tc_membrane=20.0,
+                             rc_adaptation=(0.03, 0.1), spike_increment=(-1.5, -1.0), resistance=1.0))
+
+
 def is_dyadic(x: float) -> bool:
     """x is a multiple of 2^-10 of modest size: float32 arithmetic on such numbers is exact."""
     y = x * 1024.0
@@ -226,6 +247,75 @@ class NeuronProbe:
         cur = ext / res + self.adaptation_sum()
         return np.nan_to_num(cur, nan=0.0, posinf=1e6, neginf=-1e6)
 
+    def refractory_next(self):
+        """per element: will it (surely) still be refractory in the next step / surely be free?
+        (undecided - None - when the lax float model may go either way)"""
+        r0 = self.refracs()
+        d = r0 - self.dt
+        if self.lax:
+            sure_nf = d > 0.25 * self.tick
+            sure_f = d < -0.25 * self.tick
+        else:
+            sure_nf = d > 0
+            sure_f = d <= 0
+        return sure_nf, sure_f
+
+    def poke_refractory(self, rng, prob=0.35):
+        """Through the public `voltage` setter, move some elements that will still be refractory in
+        the next step to a voltage whose refractory evolution (kept when locked, integrated with a
+        masked input otherwise) lies at / above or just below the current threshold.  Returns the
+        list of (element, voltage) assignments (for replays)."""
+        sure_nf, _ = self.refractory_next()
+        idx = [e for e in range(self.E) if sure_nf[e] and rng.random() < prob]
+        if not idx:
+            return []
+        th = self.thresholds()
+        v = self.voltages()
+        out = []
+        for e in idx:
+            above = rng.random() < 0.7
+            if above:
+                cands = [th[e] + d for d in (rng.uniform(0.5, 4.0), 20.0, 100.0, 1000.0)]
+            else:
+                cands = [th[e] - d for d in (rng.uniform(0.5, 6.0),)]
+            pick = cands[0]
+            if not self.lock:
+                # unlocked: the voltage integrates a masked input for every remaining refractory step; it
+                # must stay finite (the property is quantified over NaN-free executions) and, for an
+                # "above" poke, the first such step must still end at / above threshold
+                r0 = float(self.refracs()[e])
+                n_nf = max(1, int(math.ceil(r0 / self.dt - 1e-6)) - 1) + (1 if self.lax else 0)
+                pick = None
+                for c in cands:
+                    vv = v.copy()
+                    vv[e] = float(np.float32(c))
+                    ok, first = True, None
+                    for k in range(n_nf):
+                        vi0, m0 = ref_integrate(self.n, self.cls, vv, np.zeros_like(vv))
+                        if not np.isfinite(vi0[e]) or abs(vi0[e]) > 1e30:
+                            ok = False
+                            break
+                        if k == 0:
+                            first = (vi0[e], m0[e])
+                        vv[e] = vi0[e]
+                    if ok and (not above or first[0] >= th[e] + margin(first[1] + abs(th[e]))):
+                        pick = c
+                        break
+                if pick is None:
+                    continue
+            v[e] = float(np.float32(pick))
+            out.append((e, float(v[e])))
+        self.n.voltage = torch.tensor(v, dtype=torch.float32).reshape((self.batch,) + self.shape)
+        return out
+
+    def apply_pokes(self, pokes):
+        if not pokes:
+            return
+        v = self.voltages()
+        for e, val in pokes:
+            v[e] = val
+        self.n.voltage = torch.tensor(v, dtype=torch.float32).reshape((self.batch,) + self.shape)
+
     def step(self, inputs: torch.Tensor):
         """one forward() call; returns the per-element events (or None once a NaN was seen:
         the property is quantified over NaN-free executions)"""
@@ -233,6 +323,7 @@ class NeuronProbe:
         v0 = self.voltages()
         r0 = self.refracs()
         th = self.thresholds()
+        sure_nf, sure_f = self.refractory_next()
         cur = self.effective_current(inputs)
         vint, mag = ref_integrate(n, cls, v0, cur)
         vint0, mag0 = ref_integrate(n, cls, v0, np.zeros_like(cur))
@@ -263,14 +354,24 @@ class NeuronProbe:
         m_keep = v1 == v0
         m_int = same_value(v1, vint, tol)
         m_int0 = same_value(v1, vint0, tol0)
+        # what a refractory element's voltage does: kept (locked) or integrated with a masked input
+        with np.errstate(invalid="ignore"):
+            if self.lock:
+                tk = margin(np.abs(v0) + np.abs(th))
+                effcat = np.where(np.abs(v0 - th) <= tk, "near", np.where(v0 >= th, "ge", "lt"))
+            else:
+                tk = margin(mag0 + np.abs(th))
+                effcat = np.where(np.abs(vint0 - th) <= tk, "near", np.where(vint0 >= th, "ge", "lt"))
         evs = []
         for e in range(self.E):
+            free = True if sure_f[e] else (False if sure_nf[e] else None)
             evs.append({"op": {"cat": str(cat[e])}, "ret": {"spk": bool(spk[e])},
                         "st": {"r": int(rt[e]), "lag": bool(lag[e]), "rneg": bool(neg[e]), "attr": bool(attr[e]),
                                "vm": {"reset": bool(m_reset[e]), "keep": bool(m_keep[e]), "int": bool(m_int[e]),
                                       "int0": bool(m_int0[e])}},
                         "raw": {"v0": float(v0[e]), "v1": float(v1[e]), "vint": float(vint[e]), "th": float(th[e]),
-                                "r0": float(r0[e]), "r1": float(r1[e]), "cur": float(cur[e])}})
+                                "r0": float(r0[e]), "r1": float(r1[e]), "cur": float(cur[e]), "free": free,
+                                "effcat": str(effcat[e])}})
         return evs
 
 
